@@ -15,10 +15,10 @@ def parseGType : String → Option GType
 def canonFuel (ps : List EProd) : Nat := 4 * grammarSize ps + 10
 
 /-- all strings over `alpha` of length ≤ `n`, shortest first -/
-def allStrings (alpha : List Nat) : Nat → List (List Nat)
+def allStringsT (alpha : List Nat) : Nat → List (List Nat)
   | 0 => [[]]
   | n+1 =>
-    let prev := allStrings alpha n
+    let prev := allStringsT alpha n
     prev ++ (prev.filter (fun w => w.length == n)).flatMap fun w => alpha.map fun a => w ++ [a]
 
 def termsN (rs : List RuleN) : List Nat :=
@@ -41,7 +41,7 @@ def firstLangDiff (tbl : List Name) (st : Name) (g1 g2 : List RuleN) (n : Nat) :
       match memberB G1 w, memberB G2 w with
       | some a, some b => if a == b then go ws else .ok (some w)
       | _, _ => .error "member-fuel-exhausted"
-  go (allStrings (ts ++ [foreign]) n)
+  go (allStringsT (ts ++ [foreign]) n)
 
 def showCanonRes : CanonRes → String
   | .ok rs => "ok " ++ showRulesN rs
